@@ -686,7 +686,7 @@ public:
 		uint8_t mask = 0x1u;
 		unsigned start = byteIndex * 8;
 		unsigned end = start + 8;
-		for (unsigned i = start; i < end; ++i) {
+		for (unsigned i = start; i < end && i < nbits; ++i) { // never set bits beyond nbits
 			setbit(i, static_cast<bool>(mask & data));
 			mask <<= 1;
 		}
@@ -1461,7 +1461,7 @@ bool parse(const std::string& number, integer<nbits, BlockType, NumberType>& val
 	else if (std::regex_match(number, hex_regex)) {
 		//std::cout << "found a hexadecimal representation\n";
 		// each char is a nibble
-		int maxByteIndex = nbits / 8;
+		int maxByteIndex = (nbits + 7) / 8; // the most significant byte may be partial: setbyte() drops bits beyond nbits
 		int byte = 0;
 		int byteIndex = 0;
 		bool odd = false;
